@@ -8,7 +8,7 @@ From LV Require Import Base.Bytes Model.Obj Model.DocQ Model.PageTree Model.Trav
   Proofs.EditProofsBm Proofs.EditProofsOutline Proofs.EditProofsContent2 Proofs.EditProofsDecode Proofs.EditProofsRes
   Proofs.EditProofsEx2 Proofs.EditProofsCount Model.StreamFilt.
 From LV Require Import Gen.Consts Spec.Dfs Spec.DfsCounts Spec.PageTreeEdit Proofs.EditProofsTree Proofs.EditProofsTree2 Proofs.EditProofsRes2 Proofs.EditProofsFrame Proofs.EditProofsTree3.
-From LV Require Import Spec.PageTreeEditInd Proofs.EditProofsTreeInd Spec.PageTreeEditRef Proofs.EditProofsTreeRef.
+From LV Require Import Spec.PageTreeEditInd Proofs.EditProofsTreeInd Spec.PageTreeEditRef Proofs.EditProofsTreeRef Proofs.EditProofsTreeRef2.
 From LV Require Proofs.PageTreeProofs.
 From LV Require Proofs.FilterProofsDict.
 From LV Require Model.Outline Spec.OutlineSpec Proofs.OutlineProofs.
@@ -821,6 +821,64 @@ Proof.
   exact (conj H1 (conj H2 (conj tree_ref_example_not_ind (conj H3 H4)))).
 Qed.
 
+(* ------------------------------------------------------------------------------------------ *)
+(* C11_count_invariant on the wider domain [page_doc_ref] (Counts behind references, pages behind reference objects):
+   [page_doc_ref d t] survives every operation of [step] with the same tree, delete_pages pruning it
+   (C11_delete_pages_tree_indirect).  What the tree READS is wider here, so the domain of a step is narrower ([tree_op_dom_ref]):
+   set_object / delete_object must stay off the SUPPORT of the tree ([tree_support d t x]):
+   * the catalog and the nodes (as in [tree_op_dom]);
+   * the objects on a page id's path to its dictionary: the reference objects passed and the object holding the page dictionary
+     (replacing one of them makes the id listed in Kids lead elsewhere or nowhere: the page is gone or another one, no Count
+     is adjusted -- the same by-design absence of bookkeeping as for a node);
+   * the objects on the path from a Pages node's Count entry to its integer: the reference objects passed and the integer
+     object (replacing the integer object changes the Count the node reads while the leaves stay).
+   [tree_op_dom_ref d t o -> tree_op_dom d t o]; on a [page_doc] (direct Counts, dictionary leaves) the two coincide up to the
+   Type clause (the paths are empty).  renumber_objects and the add_xobject name clause: as in C11_count_invariant.
+   PARTIAL: delete_object is not lifted ([lifted o]; a program of the theorem contains no delete_object call).  Its proof on
+   [page_doc] goes through [page_doc_after], whose [page_doc_ref] version asks "no Count chain of ANY dictionary passes the
+   deleted id"; for an id outside the support that holds for the tree's Counts only.  Everything else of [step] is lifted:
+   new_object_id, add_object, set_object, remove_object, prune_objects, delete_pages, compress, decompress, the four content
+   operations, the three resource operations, get_page_content, save.
+   Method (Proofs/EditProofsTreeRef2.v): [page_doc_ref] reads the five structural entries of dictionary objects ([stable]) and
+   the reference / integer objects on its paths; an operation that keeps both ON THE SUPPORT ([frame_on]) keeps the tree;
+   every operation but set_object / prune_objects keeps them everywhere (they replace dictionaries or streams or insert at a
+   fresh id), set_object stays off the support, prune_objects keeps what the trailer reaches and the support is reachable. *)
+Theorem C11_count_invariant_ref_step_partial :
+  forall O d t o,
+    doc_wf d -> alloc_ok d -> page_doc_ref d t -> hbound t -> tree_op_dom_ref d t o -> lifted o ->
+    page_doc_ref (fst (step O d o)) (tree_after d t o) /\ hbound (tree_after d t o).
+Proof. exact step_page_doc_ref. Qed.
+
+Theorem C11_count_invariant_ref_partial :
+  forall O ops d t,
+    doc_wf d -> alloc_ok d -> page_doc_ref d t -> hbound t -> tree_prog_dom_ref O d t ops ->
+    let d' := run_ops O d ops in let t' := tree_end O d t ops in
+    doc_wf d' /\ alloc_ok d' /\ page_doc_ref d' t' /\ hbound t' /\
+    page_iter d' = leaves t' /\ counts_exact (d_objects d') t'.
+Proof. exact run_ops_page_doc_ref. Qed.
+
+(* the domains: the step domain implies C11_count_invariant's; the support contains the nodes and the catalog, is reachable
+   from the trailer, and is computed by [support_list] (plus the catalog) *)
+Theorem C11_tree_op_dom_ref_facts :
+  (forall d t o, tree_op_dom_ref d t o -> tree_op_dom d t o) /\
+  (forall d t x, tree_or_cat d t x -> tree_support d t x) /\
+  (forall d t x, page_doc_ref d t -> tree_support d t x -> RenumberSpec.reach (d_trailer d) (d_objects d) x) /\
+  (forall m I L x, sup m I L x -> In x (support_list m I L)).
+Proof. exact (conj tree_op_dom_ref_dom (conj tree_support_contains (conj support_reach sup_in_list))). Qed.
+
+(* non-vacuity: on the document of C11_delete_pages_tree_indirect_ref_example: add an object (15), replace it, append content to
+   page 11, add an XObject name to page 11, delete page 2 (the reference object 5), prune (drops 12, 13, 15 and the rest the
+   trailer no longer reaches), save, compress, delete page 1 twice.  15 is outside the support; the integer object 8 (Count of
+   2, behind 7) and the dictionary object 13 (page 5, behind 12) are in it *)
+Theorem C11_count_invariant_ref_example :
+  doc_wf tree_doc_ref /\ alloc_ok tree_doc_ref /\ page_doc_ref tree_doc_ref tree_ex_ind /\ hbound tree_ex_ind /\
+  tree_prog_dom_ref O_id tree_doc_ref tree_ex_ind tree_prog_ref /\
+  tree_end O_id tree_doc_ref tree_ex_ind tree_prog_ref = PNode (2,0)%N [PNode (4,0)%N []; PNode (10,0)%N [PLeaf (11,0)%N]] /\
+  page_iter (run_ops O_id tree_doc_ref tree_prog_ref) = [(11,0)%N] /\
+  ~ tree_support tree_doc_ref tree_ex_ind (15,0)%N /\
+  tree_support tree_doc_ref tree_ex_ind (8,0)%N /\ tree_support tree_doc_ref tree_ex_ind (13,0)%N.
+Proof. exact tree_prog_ref_example. Qed.
+
 Print Assumptions C11_alloc_invariant.
 Print Assumptions C11_alloc_fresh.
 Print Assumptions C11_alloc_no_collision.
@@ -886,3 +944,7 @@ Print Assumptions C11_delete_pages_tree_indirect.
 Print Assumptions C11_delete_page_step_ref.
 Print Assumptions C11_page_doc_ref_contains_page_doc_ind.
 Print Assumptions C11_delete_pages_tree_indirect_ref_example.
+Print Assumptions C11_count_invariant_ref_step_partial.
+Print Assumptions C11_count_invariant_ref_partial.
+Print Assumptions C11_tree_op_dom_ref_facts.
+Print Assumptions C11_count_invariant_ref_example.
